@@ -541,6 +541,10 @@ var synthetic = []struct {
 	{format: "pcap", name: "linktype-raw", extra: true, data: "\xd4\xc3\xb2\xa1\x02\x00\x04\x00\x00\x00\x00\x00\x00\x00\x00\x00\xff\xff\x00\x00\x65\x00\x00\x00" +
 		"\x01\x00\x00\x00\x00\x00\x00\x00\x14\x00\x00\x00\x14\x00\x00\x00" +
 		"\x45\x00\x00\x14\x00\x00\x00\x00\x40\x11\x00\x00\x7f\x00\x00\x01\x7f\x00\x00\x01"},
+	// jpeg with an APP1 extended XMP segment (signature, 32 character guid, full_length 8,
+	// offset 4, 4 data bytes): no sample file has one; the chunks are assembled by offset
+	{format: "jpeg", name: "extended-xmp", extra: true, data: "\xff\xd8\xff\xe1\x00\x51" + "http://ns.adobe.com/xmp/extension/\x00" +
+		"0123456789ABCDEF0123456789ABCDEF" + "\x00\x00\x00\x08" + "\x00\x00\x00\x04" + "abcd" + "\xff\xd9"},
 	{format: "cbor", data: "\xa2\x61a\x83\x01\x02\x03\x61b\xf5"}, // {"a":[1,2,3],"b":true}
 	{format: "csv", data: "a,b,c\n1,2,3\n"},
 	{format: "toml", data: "a = 1\n[b]\nc = \"d\"\n"},
